@@ -67,7 +67,53 @@ def gen_cases(rng, tier):
                       'site_lat': rng.choice(['same', 'same', 'params', 'scaled']), 'disp_first': rng.random() < 0.5})
         if rng.random() < 0.4:
             cases[-1]['extra_site'] = [(c + rng.choice([7, 12, 5])) % 24 for c in site]
+    # analyzers built from a structure (oracle only): the symmetry found for the structure *in its own setting* -- inversion centre or
+    # rotation axes away from the origin -- must be the one the analyzer works with
+    for _ in range({'quick': 8, 'thorough': 80, 'search': 4}[tier]):
+        kind = rng.choice(['P-1', 'P-1', 'Pm-3m', 'P4/mmm'])
+        origin = [rng.choice([0.0, 0.1, 0.15, 0.2, 0.25, 0.3]) for _k in range(3)]
+        gen = [[round(rng.uniform(0.05, 0.45), 3) for _k in range(3)] for _a in range(rng.randint(1, 3))]
+        cases.append({'kind': 'fromstruct', 'sym': kind, 'origin': origin, 'gen': gen, 'pseed': rng.randrange(10**6)})
     return cases
+
+
+def _impl_fromstruct(case):
+    from gemdat.shape import ShapeAnalyzer
+    from pymatgen.core import Lattice, Structure
+    from pymatgen.symmetry.analyzer import SpacegroupAnalyzer
+    o = np.array(case['origin'])
+    if case['sym'] == 'P-1':
+        lat = Lattice.from_parameters(6.1, 7.3, 8.2, 81, 97, 105)
+        coords, species = [], []
+        for k, d in enumerate(case['gen']):
+            coords += [o + np.array(d), o - np.array(d)]
+            species += [['Li', 'O', 'S'][k]] * 2
+    elif case['sym'] == 'Pm-3m':
+        lat = Lattice.cubic(4.2)
+        coords, species = [o, o + 0.5], ['Cs', 'Cl']
+    else:
+        lat = Lattice.tetragonal(4.0, 6.5)
+        coords, species = [o, o + np.array([0.5, 0.5, 0.5]), o + np.array([0.5, 0.5, 0.0])], ['Ti', 'Ba', 'O']
+    st = Structure(lat, species, np.mod(np.array(coords), 1))
+    an = ShapeAnalyzer.from_structure(st)
+    # every operation the analyzer works with maps the structure onto itself
+    bad = 0
+    nops = 0
+    for op in an.spacegroup:
+        nops += 1
+        for site in st:
+            img = op.operate(site.frac_coords)
+            if not any(str(t.specie) == str(site.specie) and np.abs(((t.frac_coords - img + 0.5) % 1) - 0.5).max() < 1e-6 for t in st):
+                bad += 1
+                break
+    want_ops = len(SpacegroupAnalyzer(st).get_symmetry_operations())
+    # points scattered around every atom: each distinct site collects (operations x its points) within the radius
+    r = np.random.default_rng(case['pseed'])
+    pts = np.concatenate([site.frac_coords + r.normal(0, 0.01, size=(5, 3)) @ np.linalg.inv(lat.matrix) for site in st])
+    shapes = an.analyze_positions(np.mod(pts, 1), radius=0.4)
+    orbit = {str(s.specie): sum(1 for t in st if str(t.specie) == str(s.specie)) for s in an.sites}
+    counts = [[str(s.specie), int(len(sh.coords)), orbit[str(s.specie)]] for s, sh in zip(an.sites, shapes)]
+    return {'fs_bad_ops': bad, 'fs_nops': nops, 'fs_want_ops': want_ops, 'fs_counts': counts, 'fs_nsites': len(an.sites)}
 
 
 def _ops(case):
@@ -115,6 +161,8 @@ def _positions(case, ops):
 
 
 def impl(case):
+    if case.get('kind') == 'fromstruct':
+        return _impl_fromstruct(case)
     from gemdat.shape import ShapeAnalyzer
     from pymatgen.core import PeriodicSite
     sg, ops = _ops(case)
@@ -217,6 +265,20 @@ def _prep(case, out):
 
 
 def oracle(case, out):
+    if case.get('kind') == 'fromstruct':
+        if 'fs_bad_ops' not in out:
+            return [('c17/harness-error', f"{out.get('error')}: {out.get('msg')} {out.get('tb', '')[-500:]}")]
+        fs = []
+        where = f'{case["sym"]} structure with its symmetry elements at {case["origin"]}'
+        if out['fs_bad_ops']:
+            fs.append(('shape/operations-not-of-the-structure', f'{out["fs_bad_ops"]} of the {out["fs_nops"]} operations of ShapeAnalyzer.from_structure do not map the structure onto itself ({where})'))
+        if out['fs_nops'] != out['fs_want_ops']:
+            fs.append(('shape/operations-not-of-the-structure', f'{out["fs_nops"]} operations, the structure has {out["fs_want_ops"]} ({where})'))
+        for sp, got, orbit in out['fs_counts']:
+            # 5 points around each of the `orbit` equivalent atoms; every one of them is an image of 5 points under nops / orbit operations
+            if got != 5 * out['fs_want_ops']:
+                fs.append(('shape/count', f'site {sp}: {got} points collected, expected {5 * out["fs_want_ops"]} = 5 points x {out["fs_want_ops"]} operations ({where})'))
+        return fs
     if 'points' not in out:
         return [('c17/harness-error', f"{out.get('error')}: {out.get('msg')} {out.get('tb', '')[-500:]}")]
     if case.get('extra_site') and out.get('n_shapes') != 2:
@@ -246,7 +308,7 @@ def oracle(case, out):
 
 
 def coq_term(case, out):
-    if 'points' not in out or _prep(case, out)[1]:
+    if case.get('kind') == 'fromstruct' or 'points' not in out or _prep(case, out)[1]:
         return None
     pts = np.array(out['points']).reshape(-1, 3)
     rp = np.rint(pts)
@@ -262,10 +324,14 @@ def coq_term(case, out):
 
 
 def nontrivial(case, out):
+    if case.get('kind') == 'fromstruct':
+        return out.get('fs_nops', 0) > 1
     return 'points' in out and _prep(case, out)[2]
 
 
 def classify(case, out):
+    if case.get('kind') == 'fromstruct':
+        return ['kind=fromstruct', 'group:' + case['sym']]
     tags = ['group:' + case['sg'], 'supercell' if case['supercell'] != [1, 1, 1] else 'unit-cell']
     if 'points' in out:
         if _prep(case, out)[1]:
@@ -275,4 +341,6 @@ def classify(case, out):
 
 
 def sample(case, out):
+    if case.get('kind') == 'fromstruct':
+        return {'kind': 'fromstruct', 'sym': case['sym'], 'origin': case['origin'], 'counts': out.get('fs_counts')}
     return {'sg': case['sg'], 'm': case['m'], 'site24': case['site24'], 'supercell': case['supercell'], 'radius': out.get('radius'), 'n_points': len(out.get('points', []))}
